@@ -22,6 +22,22 @@ def kmerTable (g : G (List Nat)) (keep : List Nat) : List (Entry (List Nat)) :=
 /-- `recompress <K> <gstranded> <stranded> <join> <reduce> <censor> <nodes>` -/
 def handle (args : List String) (impl : String) : R Ans :=
   match args with
+  | ["tips", k, st, maxLen, nodes] => do
+    -- `CleanGraph::new(|n| n.len() < maxLen).find_bad_nodes(g)`
+    let K ← nat k; let st ← bool st; let maxLen ← nat maxLen
+    let ns ← parseNodes nodes
+    let g : G (List Nat) := ⟨K, ns, st⟩
+    let model := findBadNodes g (fun n => decide (n.seq.length < maxLen))
+    let verdict ← do
+      if impl == "panic" then pure "FAIL:panic-in-range" else do
+      let ids ← natList impl
+      -- exactly the dead ends that satisfy the predicate, ascending
+      let cnt := fun (x : Nat) => (List.range 4).countP (fun b => x.testBit b)
+      let isTip := fun (i : Nat) => match ns[i]? with
+        | some n => (n.exts.dirBits .L == 0 && cnt (n.exts.dirBits .R) ≤ 1 || n.exts.dirBits .R == 0 && cnt (n.exts.dirBits .L) ≤ 1) && n.seq.length < maxLen
+        | none => false
+      pure (if ids == (List.range ns.length).filter isTip then "ok" else "FAIL:tips-differ-from-dead-ends-meeting-the-predicate")
+    pure { model := showNatList model, verdict }
   | ["recompress", k, gst, st, jn, rd, censor, nodes] => do
     let K ← nat k; let gst ← bool gst; let st ← bool st
     let join ← joinOf jn; let reduce ← reduceOf rd
